@@ -27,7 +27,8 @@ RULE = ("cases = (transition list, final list); random digraphs of 1-40 states (
 LEVEL_TEXT = ("Generated-input search: thousands of random digraphs plus enumerated deep shapes (to depth 5000 in the "
               "thorough tier) and generator boards, each compared with an independent set-based BFS and an edge "
               "Counter. Exploration is the right level: the domain (all digraphs) is infinite and the oracle is exact, "
-              "so every explored case is decided, but nothing is claimed beyond what was generated.")
+              "so every explored case is decided, but nothing is claimed beyond what was generated."
+              ' Added while validating sensitivity: hubs and parallel edges with 70 000 - 1 100 000 entries waiting at once, chains of 150 000 - 1 200 000 states, layered graphs; an atheris (libFuzzer) campaign with the oracle inside the target.')
 LEVEL_NOTE = ("Trusted: the 20-line BFS reference in props/c07.py, Hypothesis' generators. Assumes labels are irrelevant "
               "to the search and that the harness leaves the interpreter recursion limit at its default.")
 ASSUMPTIONS = ["transition labels are irrelevant to the search (only targets are read)",
